@@ -7,6 +7,7 @@ CONSTANTS
   Literal = TRUE
   FixDel = FALSE
   CreateNils = TRUE
+  AtomicNewRef = TRUE
 SPECIFICATION Spec
 INVARIANTS Linearizable
 PROPERTIES EveryOpReturns
